@@ -68,8 +68,10 @@ import (
 	"math/rand"
 	"net"
 	"net/http"
+	"os"
 	"runtime"
 	"sort"
+	"strconv"
 	"strings"
 	"sync"
 	"sync/atomic"
@@ -1189,6 +1191,12 @@ func runE2E(r *lib.Run) {
 	n := len(specs)
 	workers := r.N(4, 12)
 	var next atomic.Int64
+	if only, err := strconv.Atoi(os.Getenv("VERIF_E2E_ONLY")); err == nil && only >= 0 && only < n {
+		// debugging aid: run a single session of the list (same spec as in the full run)
+		next.Store(int64(only))
+		n = only + 1
+		workers = 1
+	}
 	var wg sync.WaitGroup
 	var mu sync.Mutex
 	agg := map[string]int{}
